@@ -214,6 +214,12 @@ def subst_case(asm, acc, seed, idx):
             acc['ctr']['pairs_with_label_named_like_a_constant'] += 1
     lit_lines = P.render(items)
     con_lines = P.render(citems)
+    if idx % 2:
+        # loads / stores / jalr in the `offset(base)` spelling: the base register, the offset, or both arrive through constants
+        from ..gen import variants
+        lit_lines = variants.offbase_lines(items, lit_lines, idx // 2 % 2)
+        con_lines = variants.offbase_lines(citems, con_lines, idx // 2 % 2)
+        acc['ctr']['pairs_with_offset_base_spelling'] += 1
     case = {'kind': 'subst', 'seed': seed, 'idx': idx}
     for compress in (False, True):
         acc['n'] += 1
